@@ -10,9 +10,15 @@ from .ir import walk_stmts, walk_expr, E
 META = {
     'explanation': 'E-TAB over both generated C++ databases (every ZoneInfo, kZoneId constant, registry row, '
                    'link reference folded from the clang AST) plus E-GNF/ast rules on the generator: '
-                   'hash_name is djb2, ids are computed from the emitted name, registries iterate sorted().',
+                   'hash_name is djb2, ids are computed from the emitted name, registries iterate sorted(); the two uniqueness '
+                   'guards (hash collisions, colliding C++ symbols) probe and fill their seen-tables under the same derived key and '
+                   'their raise/removal is control dependent on the probe; link items are generated only after the target was looked '
+                   'up in the emitted zones; the extractor stores a link only for a name with one definition; links to missing '
+                   'zones are detected on the link\'s own target.',
     'decided': 'id == djb2(name) for all zones; uniqueness; equality across zonedb/zonedbx/kZoneId constants; '
-               'registry complete, duplicate-free, strictly ascending; link -> target agreement; generator shape',
+               'registry complete, duplicate-free, strictly ascending; link -> target agreement; generator shape; a freshly '
+               'compiled source cannot silently emit two zones with one id or one symbol, nor a link bound to a zone other than '
+               'its single declared target',
     'not_decided': 'equality with ids of earlier releases (no baseline in the repository): reduced to '
                    '"the id is a pure function of the name and that function is djb2"; tools/zonedbpy carries no ids',
     'assumptions': ['clang 14 parser and constant folding of literals', 'CPython ast',
